@@ -69,6 +69,31 @@ func Context(d Data, hits *[]int) *plush.Context {
 	return ctx
 }
 
+// agrees: the outcome (got, err, hits) is one the reference outcome allows.
+func agrees(ref *Ref, got string, err error, hits []int) bool {
+	switch {
+	case ref.Skip:
+		return true
+	case ref.Fail:
+		if err == nil {
+			return false
+		}
+		return got == ""
+	case ref.Either:
+		if err != nil {
+			return true
+		}
+		return got == ref.Out
+	}
+	if err != nil {
+		return false
+	}
+	if got != ref.Out {
+		return false
+	}
+	return sameInts(hits, ref.Hits)
+}
+
 // Check renders prog with plush and compares the result with what the
 // reference interpreter derives from the property statements. what names the
 // property-specific claim in the assertion labels.
@@ -79,6 +104,19 @@ func Check(prog []*Stmt, d Data, what string) {
 	got, err := plush.Render(src, Context(d, &hits))
 	vrt.Note("got", got)
 	ref := Run(prog, d)
+	if ref.Stale && !ref.Skip {
+		// a let of an earlier iteration was read: one scope per loop run, or a fresh one per iteration
+		alt := RunFresh(prog, d)
+		vrt.Note("want", ref.Out)
+		vrt.Note("or", alt.Out)
+		if agrees(ref, got, err, hits) {
+			vrt.Cover("let kept for the loop run")
+			return
+		}
+		vrt.Assert(agrees(alt, got, err, hits), what+": the outcome is that of the reference interpreter (a let in a loop body lasts for the loop run, or for the iteration)")
+		vrt.Cover("fresh scope per iteration")
+		return
+	}
 	switch {
 	case ref.Skip:
 		vrt.Cover("outcome not fixed by the properties (no panic, no hang)")
